@@ -1,5 +1,5 @@
 import Lean.Data.Json
-import GBS.Model.Bond
+import GBS.Model.Gen
 /-! JSON codecs for the line protocol (driver only; not part of the verified model). -/
 open Lean
 namespace GBS.Driver
@@ -70,5 +70,44 @@ def descToJson (d : Desc) : Json :=
 def natToJson (n : Nat) : Json := Json.num (JsonNumber.fromNat n)
 def natsToJson (l : List Nat) : Json := Json.arr (l.map natToJson).toArray
 def ratsToJson (l : List Rat) : Json := Json.arr (l.map ratToJson).toArray
+
+def tokenOf (j : Json) : R Token := do
+  pure { tid := ← natOf (← getF j "tid"), natoms := ← natOf (← getF j "n"), mass := ← ratOf (← getF j "m"),
+         bds := ← listOf descOf (← getF j "bds") }
+
+def elementOf (j : Json) : R Element := do
+  match (← strOf (← getF j "k")) with
+  | "tok" => pure (.tok (← tokenOf (← getF j "t")))
+  | "stoch" =>
+    pure (.stoch { left := ← descOf (← getF j "left"), right := ← descOf (← getF j "right"),
+                   repeats := ← listOf tokenOf (← getF j "rep"), ends := ← listOf tokenOf (← getF j "end"),
+                   hasDist := ← boolOf (← getF j "dist") })
+  | k => throw s!"bad element kind {k}"
+
+def eventOf (j : Json) : R Event := do
+  match j.getObjVal? "p" with
+  | .ok v => pure (.pick (← natOf v))
+  | .error _ => pure (.draw (← ratOf (← getF j "d")))
+
+def errToString (e : Err) : String := (reprStr e).replace "GBS.Err." ""
+
+def choiceToJson (c : Choice) : Json :=
+  Json.mkObj [("a", natsToJson c.opts), ("p", ratsToJson c.probs), ("r", natToJson c.res)]
+
+def traceItemToJson : TraceItem → Json
+  | .choice c => Json.mkObj [("c", choiceToJson c)]
+  | .drew x => Json.mkObj [("d", ratToJson x)]
+  | .units n => Json.mkObj [("u", natToJson n)]
+  | .cmp a t => Json.mkObj [("cmp", Json.arr #[ratToJson a, ratToJson t])]
+
+def molToJson (m : Mol) : Json :=
+  Json.mkObj [
+    ("insts", natsToJson (m.insts.map (·.tok.tid))),
+    ("offs", natsToJson (m.insts.map (·.off))),
+    ("natoms", natToJson m.natoms),
+    ("bonds", Json.arr (m.bonds.map fun b => natsToJson [b.a, b.b, b.order.toNat, b.na, b.nb, b.ia, b.ka, b.ib, b.kb]).toArray),
+    ("opens", Json.arr (m.opens.map fun o => (descToJson o.d).setObjVal! "node" (natToJson o.node)
+                                            |>.setObjVal! "inst" (natToJson o.inst) |>.setObjVal! "k" (natToJson o.k)).toArray),
+    ("mass", ratToJson m.mass)]
 
 end GBS.Driver
